@@ -403,8 +403,16 @@ def main() -> int:
         "translator_tie": tie,
         "lake_build_s": build_s,
     }
+    assumptions = list(TRUSTED_BASE)
+    if prop in TIE_MODULE:
+        assumptions.append(
+            "translator tie (second tie for this property's anchored module): checks/py2lean.py (syntax-directed printer over "
+            "Python's ast, explicit subset, Unsupported otherwise), ProcSim/PyLite.lean's reading of list / set / negative "
+            "index / truthiness / short-circuit / exceptions, the type-hint table (request owners are naturals; flags are "
+            "consumed by truthiness), no aliasing between objects reachable from self, attrs __init__ = factories then converters")
+        coverage["trusted_base"] = assumptions
     ev = {"property_id": prop, "tier": tier, "seed": seed, "level": level, "coverage": coverage,
-          "assumptions": TRUSTED_BASE, "wall_s": round(wall, 2), "violations": len(violations)}
+          "assumptions": assumptions, "wall_s": round(wall, 2), "violations": len(violations)}
     os.makedirs(os.path.join(VERIF, "evidence"), exist_ok=True)
     with open(os.path.join(VERIF, "evidence", f"{prop}.json"), "w") as fh:
         json.dump(ev, fh, indent=1)
